@@ -66,12 +66,19 @@ let sc_writer c =
   let path = Filename.concat c.dir "w.mtbl" in
   (try Sys.remove path with _ -> ());
   let fd = Wr.c_open_rw path true in
-  let w = Wr.c_writer_init_fd fd (rint c.st 6, false, 0, true, 1024, false, 0, pool) in
+  (* shapes that make the writer's buffers and vectors outgrow their initial capacity: keys of several hundred to
+     several thousand bytes, a restart point at every entry of a large block (hundreds of restarts), many blocks *)
+  let shape = rint c.st 4 in
+  let (bs, ri_set, ri) = (match shape with 1 -> (65536, true, 1) | 2 -> (1024, true, 1) | _ -> (1024, false, 0)) in
+  let w = Wr.c_writer_init_fd fd (rint c.st 6, false, 0, true, bs, ri_set, ri, pool) in
   Wr.c_close fd;
   let wid = create c (KWriter pooled) in
   observe c "writer_init" ~threads_exact:(not pooled || nthreads = 0);
-  for i = 0 to rrange c.st 0 80 do
-    ignore (Wr.c_writer_add w (Printf.sprintf "k%04d" (if rint c.st 5 = 0 then 0 else i)) (String.make (rint c.st 300) 'v'))
+  let n = (match shape with 1 -> rrange c.st 200 1500 | 3 -> rrange c.st 0 40 | _ -> rrange c.st 0 80) in
+  for i = 0 to n do
+    let base = Printf.sprintf "k%04d" (if rint c.st 5 = 0 then 0 else i) in
+    let key = if shape = 3 then base ^ String.make (rrange c.st 250 5000) 'K' else base in
+    ignore (Wr.c_writer_add w key (String.make (rint c.st 300) 'v'))
   done;
   observe c "writer_adds(with refusals)" ~threads_exact:false;
   Wr.c_writer_destroy w; destroy c wid;
@@ -134,7 +141,9 @@ let sc_sorter c =
   let n = rrange c.st 0 120 in
   let failed = ref false in
   for i = 0 to n - 1 do
-    if not (So.c_sorter_add s (Printf.sprintf "k%03d" (rint c.st 40)) (Printf.sprintf "a%d" i)) then failed := true
+    let k = Printf.sprintf "k%03d" (rint c.st 40) in
+    let k = if maxmem > 100000 && rint c.st 3 = 0 then k ^ String.make (rrange c.st 257 2000) 'K' else k in
+    if not (So.c_sorter_add s k (Printf.sprintf "a%d" i)) then failed := true
   done;
   let mode = rint c.st 4 in
   if not pooled && fail_at = 0 then begin
